@@ -160,6 +160,88 @@ def templates(F, S, rng):
     return T
 
 
+def random_plot_call(F, S, rng):
+    """A random, valid combination of options of one plotting function -> (qualified name, label, thunk).
+    The thunk owns fresh mutable containers (lists, dicts) that stay caller-owned."""
+    kind = str(rng.choice(['int', 'float', 'rfi']))
+    d = S[kind]
+    ch = int(rng.integers(0, 3))
+    name = d.channels[ch]
+    chan = name if rng.random() < 0.5 else ch
+    parts = [d[:40], d[40:80], d[80:]]
+    which = str(rng.choice(['violin', 'violin', 'violin_dose_response', 'hist1d', 'scatter2d', 'density2d', 'density_and_hist']))
+    dscale = str(rng.choice(['logicle', 'linear', 'log']))
+    pscale = str(rng.choice(['linear', 'log']))
+    if which in ('violin', 'violin_dose_response'):
+        form = int(rng.integers(4))
+        if form == 0:
+            data, c = [p for p in parts], chan
+        elif form == 1:
+            data, c = [np.asarray(p[:, ch], dtype=float) for p in parts], None          # list of plain 1-D arrays
+        elif form == 2:
+            data, c = [p[:, ch] for p in parts], None                                    # list of 1-D samples
+        else:
+            data, c = tuple(p for p in parts), chan
+        pos = [0.0, 10.0, 100.0] if rng.random() < 0.5 else [1.0, 10.0, 100.0]
+        if rng.random() < 0.3:
+            pos = [10.0, 0.0, 100.0]
+        if rng.random() < 0.3:
+            pos = np.array(pos)
+        kw = {}
+        if rng.random() < 0.4:
+            kw['violin_kwargs'] = [{'facecolor': 'r'}, {'facecolor': 'g'}, {'facecolor': 'b'}] if rng.random() < 0.5 else {'facecolor': 'c'}
+        if rng.random() < 0.3:
+            kw['upper_trim_fraction'] = [0.01, 0.02, 0.0]
+            kw['lower_trim_fraction'] = [0.0, 0.02, 0.01]
+        if rng.random() < 0.3:
+            kw['draw_summary_stat_kwargs'] = {'color': 'k', 'linewidth': 2}
+            kw['draw_log_zero_divider_kwargs'] = {'color': 'r'}
+        if which == 'violin':
+            vert = bool(rng.random() < 0.6)
+            if vert:
+                kw.update(xscale=pscale, yscale=dscale)
+            else:
+                kw.update(xscale=dscale, yscale=pscale)
+            label = 'form%d vert=%s pos=%s scales=%s/%s %s' % (form, vert, list(np.asarray(pos)), pscale, dscale, sorted(kw))
+            return 'plot.violin', label, (lambda: F.plot.violin(data, c, positions=pos, vert=vert, num_bins=20, **kw))
+        mind = parts[0] if form in (0, 3) else (np.asarray(parts[0][:, ch], dtype=float) if form == 1 else parts[0][:, ch])
+        maxd = parts[2] if form in (0, 3) else (np.asarray(parts[2][:, ch], dtype=float) if form == 1 else parts[2][:, ch])
+        use_mm = rng.random() < 0.5
+        label = 'form%d pos=%s xscale=%s yscale=%s minmax=%s %s' % (form, list(np.asarray(pos)), pscale, dscale, use_mm, sorted(kw))
+        return 'plot.violin_dose_response', label, (lambda: F.plot.violin_dose_response(
+            data, c, positions=pos, min_data=mind if use_mm else None, max_data=maxd if use_mm else None,
+            xscale=pscale, yscale=dscale, num_bins=20, **kw))
+    if which == 'hist1d':
+        dl = [p for p in parts] if rng.random() < 0.6 else d
+        bins = int(rng.choice([16, 64])) if rng.random() < 0.6 else (None if max(d.resolution()) <= 4096 and rng.random() < 0.3 else list(np.linspace(1, 1000, 13)))
+        kw = {}
+        if isinstance(dl, list) and rng.random() < 0.5:
+            kw.update(facecolor=['r', 'g', 'b'], legend=True, legend_labels=['a', 'b', 'c'])
+        if rng.random() < 0.4:
+            kw.update(xlim=[1.0, 5000.0])
+        if rng.random() < 0.3:
+            kw.update(normed_area=True)
+        label = 'list=%s scale=%s bins=%s %s' % (isinstance(dl, list), dscale, type(bins).__name__, sorted(kw))
+        return 'plot.hist1d', label, (lambda: F.plot.hist1d(dl, chan, dscale, bins=bins, **kw))
+    c2 = [chan, d.channels[(ch + 1) % 3] if rng.random() < 0.5 else (ch + 1) % 3]
+    ys = str(rng.choice(['logicle', 'linear', 'log']))
+    if which == 'scatter2d':
+        dl = [p for p in parts] if rng.random() < 0.6 else d
+        kw = dict(color=['r', 'g', 'b']) if isinstance(dl, list) and rng.random() < 0.5 else {}
+        return 'plot.scatter2d', 'list=%s %s/%s' % (isinstance(dl, list), dscale, ys), (lambda: F.plot.scatter2d(dl, c2, dscale, ys, **kw))
+    if which == 'density2d':
+        bins = [int(rng.choice([8, 16])), int(rng.choice([8, 16]))] if rng.random() < 0.5 else int(rng.choice([8, 16]))
+        mode = str(rng.choice(['mesh', 'scatter']))
+        return 'plot.density2d', '%s %s/%s bins=%s' % (mode, dscale, ys, type(bins).__name__), \
+            (lambda: F.plot.density2d(d, c2, bins, mode, xscale=dscale, yscale=ys, sigma=1.0, smooth=bool(rng.random() < 0.7)))
+    dp = {'mode': str(rng.choice(['mesh', 'scatter'])), 'sigma': 1.0, 'bins': [12, 12], 'xscale': dscale, 'yscale': ys}
+    hc = [d.channels[2], d.channels[(ch + 1) % 3]]
+    hp = [{'xscale': dscale, 'bins': 16}, {'xscale': ys, 'bins': 16}] if rng.random() < 0.6 else {'xscale': dscale, 'bins': 16}
+    gated = d[:50] if rng.random() < 0.7 else None
+    return 'plot.density_and_hist', 'gated=%s hist_params=%s' % (gated is not None, type(hp).__name__), \
+        (lambda: F.plot.density_and_hist(d, gated, None, c2, dp, hc, hp))
+
+
 def bead_sample(F, rng, path):
     """small well-separated bead sample (3 populations) for the calibration template."""
     K, n = 4, 120
@@ -205,6 +287,22 @@ def run(ctx):
             covered.add(q)
             ctx.case_done(class_key=('template', q), nontrivial=True, distinct_key=core.digest(cid, q, label),
                           sample={'template': mon.template} if i in (3, 40) else None)
+    # random valid option combinations of the plotting functions (their option space is too large for fixed templates)
+    nrand = 120 if ctx.tier == 'quick' else 3000
+    Srand = None
+    for cid, rng in ctx.cases([('rplot', i) for i in range(nrand)]):
+        if Srand is None:
+            Srand = samples(F, np.random.default_rng([ctx.seed, 13, 99]), path)
+        mon.cid = cid
+        q, label, fn = random_plot_call(F, Srand, rng)
+        mon.template = '%s [random: %s]' % (q, label)
+        with np.errstate(all='ignore'):
+            o = core.attempt(fn)
+        plt.close('all')
+        if o.raised:
+            ctx.note('random plot call raised: %s: %s' % (q, core.exc_str(o.exc)[:80]))
+        ctx.case_done(class_key=('random-plot', q, 'raised' if o.raised else 'ok'), nontrivial=True, distinct_key=core.digest(cid, label),
+                      sample={'template': mon.template} if cid[1] < 2 else None)
     # calibration with plots (populations list, dict parameters) under the same monitors
     for cid, rng in ctx.cases([('calib', r) for r in range(2 if ctx.tier == 'quick' else 12)]):
         mon.cid = cid
